@@ -466,6 +466,16 @@ class Run:
                 self.gen = None
             val, err = self._await(cycle())
             out = self._outcome(val, err, yielded=False)
+        elif kind == "sibling":
+            # a second Gateway object in the same process (another serial port, another broker) learns a version
+            other_tr = FakeTransport()
+            other = Gateway(other_tr)
+            other_tr.gateway = other
+            other_tr.lines.append(f"0;255;3;0;2;{ev.get('p') or '1.5.1'}\n")
+            gen2 = other.listen()
+            self._await(gen2.__anext__())
+            self.siblings = getattr(self, "siblings", []) + [(other, gen2)]
+            out = {"k": "ok", "cls": "", "id": -1, "m": NOMSG}
         elif kind == "reboot":
             if ev["n"] in gw.nodes:
                 gw.nodes[ev["n"]].reboot = True
